@@ -101,7 +101,7 @@ def _run(ck, tier):
     ck.rule("R-C15-fst", "delegation: every exact query of FstDictionary calls the same-named query on self.full_dict and nothing else of the query set; FstDictionary::new builds full_dict and the FST from the same vector")
     ck.rule("R-C15-merged", "union fold: every MergedDictionary query calls the same-named query on elements of self.children")
     ck.rule("R-C15-distance", "the edit distance that bounds MutableDictionary's fuzzy results is the Wagner-Fischer table and nothing else: in edit_distance_min_alloc every return value is either the saturation constant of the length guard or a cell read out of a row vector at index len(source); the cell update inside the inner loop is built from two `min` and three additions over cells of the two rows and a cost that is 0 or 1 depending on one character comparison")
-    ck.not_decided += ["Levenshtein distance: equivalence of the recurrence with the mathematical definition (the shape is checked, not proved)", "completeness/order/cap of fuzzy results", "positional zip of the two DFA streams in FstDictionary::fuzzy_match", "u8 row overflow for words > 255 chars"]
+    ck.not_decided += ["Levenshtein distance: equivalence of the recurrence with the mathematical definition (the shape is checked, not proved)", "completeness/order/cap of fuzzy results", "positional zip of the two DFA streams in FstDictionary::fuzzy_match for queries with upper-case letters (for lower-case queries its premise - both automata built from the same normalised string - is R-C15-twin)"]
     p = facts.load()
     impls = {}
     for f in p.fns.values():
